@@ -90,6 +90,14 @@ func parseAndCompare1(run *core.Run, txt string, modular bool, exp *openfgav1.Au
 		run.Violation("grammatical-layout-rejected", c, "accepted", err.Error())
 		return false
 	}
+	if !parsedFinite(run, c, got) {
+		return false
+	}
+	for _, td := range ext {
+		if !parsedFinite(run, c, &openfgav1.AuthorizationModel{TypeDefinitions: []*openfgav1.TypeDefinition{td}}) {
+			return false
+		}
+	}
 	if !proto.Equal(wsExprs(exp), wsExprs(got)) {
 		if hasCelComment(exp) && proto.Equal(wsExprs(stripCelComments(exp)), wsExprs(got)) {
 			if _, ok := run.FindingListed("K3"); ok {
